@@ -542,4 +542,69 @@ func c14JQLit(cx *c14Ctx) {
 	if n == 0 {
 		ru.Undecided("from_jq|terms", c14JQPos(d), "term-type dispatch not found")
 	}
+	// the parser omits .str of a string term for the empty string: every read of a string term's text
+	// (a path ending in .str) supplies "" when it is absent (`// ""`, or an if on its presence yielding "")
+	strReads, undefaulted := 0, ""
+	for _, nd := range jq.Defs {
+		in := false
+		for a := nd; a != nil; a = a.Parent {
+			if a == d {
+				in = true
+			}
+		}
+		if !in {
+			continue
+		}
+		defaulted := map[*gojq.Query]bool{}
+		presenceIf := false
+		fw.WalkJQ(nd.Def.Body, func(x any) bool {
+			switch q := x.(type) {
+			case *gojq.Query:
+				if q.Op == gojq.OpAlt && q.Left != nil && q.Right != nil {
+					if sv, ok := fw.JQConstString(q.Right); ok && sv == "" {
+						defaulted[q.Left] = true
+					}
+				}
+			case *gojq.If:
+				if strings.Contains(fw.JQStr(q.Cond), ".str") {
+					for _, br := range []*gojq.Query{q.Then, q.Else} {
+						if br != nil {
+							if sv, ok := fw.JQConstString(br); ok && sv == "" {
+								presenceIf = true
+							}
+						}
+					}
+				}
+			}
+			return true
+		}, false)
+		fw.WalkJQ(nd.Def.Body, func(x any) bool {
+			q, ok := x.(*gojq.Query)
+			if !ok || q.Term == nil || q.Op != 0 {
+				return true
+			}
+			t := q.Term
+			last := ""
+			if k := len(t.SuffixList); k > 0 {
+				if ix := t.SuffixList[k-1].Index; ix != nil {
+					last = ix.Name
+				}
+			} else if t.Type == gojq.TermTypeIndex && t.Index != nil {
+				last = t.Index.Name
+			}
+			if last != "str" {
+				return true
+			}
+			strReads++
+			if !defaulted[q] && !presenceIf && undefaulted == "" {
+				undefaulted = fw.JQStr(q)
+			}
+			return true
+		}, false)
+	}
+	if strReads < 2 {
+		ru.Undecided("from_jq|string-text", c14JQPos(d), fmt.Sprintf("%d reads of a string term's text found in from_jq, expected the string literal and the quoted key", strReads))
+	} else {
+		ru.Check(undefaulted == "", "from_jq|string-text", c14JQPos(d), "every read of a string term's text defaults to the empty string", "from_jq reads "+undefaulted+" without a default: the parser omits .str for the empty string, so \"\" and the empty key written by to_jq come back as null")
+	}
 }
